@@ -231,9 +231,9 @@ def style_doc(s1, s2, s3, on_p):
   return doc_spec(node("body", [node("div", [p], id="d1")], id="b"), [{"id": "r1"}])
 
 
-def fam_style_items():
+def fam_style_items(thorough=False):
   n = len(STYLE_MENU)
-  return Product([range(n), range(n), range(n), [0, 1, 4]])
+  return Product([range(n), range(n), range(n), list(range(n)) if thorough else [0, 1, 4]])
 
 
 TOKENS = ["a&b", "a<b", "a>b", "x-->y", "<b>bold</b>", "&amp;", "a  b", " lead", "trail ", "t\tab", "l1\nl2", "{b}x{/b}", "-->", "&", "<", "1 < 2 & 3 > 2"]
